@@ -219,6 +219,7 @@ func runC18(c *Ctx) {
 	c.r189()
 	c.r1810()
 	c.r1111("R18.11")
+	c.r1812()
 }
 
 // R18.7 / R18.8: Mediatype finds the quoted strings and leaves them alone.
@@ -415,4 +416,136 @@ func (c *Ctx) r187() {
 		return true
 	})
 	c.R.Floor(r8, "ToLower calls of Mediatype", n8, 2)
+}
+
+// R18.12: the candidate lengths are those of the payload that is encoded.
+func (c *Ctx) r1812() {
+	const rule = "R18.12"
+	c.R.Rule(rule, "minify.DataURI chooses between the unchanged input, the base64 and the percent encoding by comparing lengths it computed from the payload (`base64Len := … EncodedLen(len(data))`, `asciiLen := len(data)` plus two per escaped byte). A length is that of the payload only as long as the payload variable is not assigned again: for every local that is defined from len(V) of a byte slice V and read later, no path leads from the definition through an assignment of V to a read without passing a new definition from len(V). Computing base64Len in front of the payload's minifier compared the length of the unminified payload and chose the longer encoding")
+	pk := c.pkg(rule, "")
+	if pk == nil {
+		return
+	}
+	info := pk.TypesInfo
+	fd := c.fn(rule, pk, "DataURI")
+	if fd == nil {
+		return
+	}
+	g := c.graph(pk, fd)
+	// lenOf returns the byte slice variables V for which e contains len(V)
+	lenOf := func(e ast.Node) []types.Object {
+		var out []types.Object
+		ast.Inspect(e, func(z ast.Node) bool {
+			ce, ok := z.(*ast.CallExpr)
+			if !ok || len(ce.Args) != 1 {
+				return true
+			}
+			if id, ok := ce.Fun.(*ast.Ident); !ok || id.Name != "len" {
+				return true
+			}
+			if a, ok := ast.Unparen(ce.Args[0]).(*ast.Ident); ok {
+				if v, ok := info.Uses[a].(*types.Var); ok && !v.IsField() && v.Parent() != pk.Types.Scope() {
+					if sl, ok := v.Type().Underlying().(*types.Slice); ok && isByteType(sl.Elem()) {
+						out = append(out, v)
+					}
+				}
+			}
+			return true
+		})
+		return out
+	}
+	objOf := func(e ast.Expr) types.Object {
+		id, ok := ast.Unparen(e).(*ast.Ident)
+		if !ok {
+			return nil
+		}
+		if o := info.Defs[id]; o != nil {
+			return o
+		}
+		return info.Uses[id]
+	}
+	assigns := func(y *flow.Node, o types.Object) (ast.Expr, bool) {
+		if y.Kind != flow.KStmt {
+			return nil, false
+		}
+		as, ok := y.Stmt.(*ast.AssignStmt)
+		if !ok {
+			return nil, false
+		}
+		for i, l := range as.Lhs {
+			if objOf(l) == o {
+				if len(as.Lhs) == len(as.Rhs) {
+					return as.Rhs[i], true
+				}
+				return as.Rhs[0], true
+			}
+		}
+		return nil, false
+	}
+	reads := func(y *flow.Node, o types.Object) bool {
+		a := y.Ast()
+		if a == nil {
+			return false
+		}
+		hit := false
+		skip := map[ast.Node]bool{}
+		if as, ok := a.(*ast.AssignStmt); ok && (as.Tok == token.ASSIGN || as.Tok == token.DEFINE) {
+			for _, l := range as.Lhs {
+				skip[l] = true
+			}
+		}
+		ast.Inspect(a, func(z ast.Node) bool {
+			if skip[z] {
+				return false
+			}
+			if id, ok := z.(*ast.Ident); ok && info.Uses[id] == o {
+				hit = true
+			}
+			return !hit
+		})
+		return hit
+	}
+	n := 0
+	for _, d := range g.Nodes {
+		as, ok := d.Stmt.(*ast.AssignStmt)
+		if !ok || d.Kind != flow.KStmt || len(as.Lhs) != 1 || len(as.Rhs) != 1 || (as.Tok != token.ASSIGN && as.Tok != token.DEFINE) {
+			continue
+		}
+		L := objOf(as.Lhs[0])
+		if L == nil || !isIntType(L.Type()) {
+			continue
+		}
+		for _, V := range lenOf(as.Rhs[0]) {
+			n++
+			isRefresh := func(q *flow.Node) bool {
+				rhs, ok := assigns(q, L)
+				if !ok || q == d {
+					return false
+				}
+				for _, v2 := range lenOf(rhs) {
+					if v2 == V {
+						return true
+					}
+				}
+				return false
+			}
+			var bad []string
+			for _, a := range g.Nodes {
+				if _, ok := assigns(a, V); !ok || a == d {
+					continue
+				}
+				p1 := g.Path(flow.Search{From: []*flow.Node{d}, Goal: func(q *flow.Node) bool { return q == a }, Avoid: isRefresh})
+				if p1 == nil {
+					continue
+				}
+				p2 := g.Path(flow.Search{From: []*flow.Node{a}, Goal: func(q *flow.Node) bool { return q != a && q != d && reads(q, L) }, Avoid: func(q *flow.Node) bool { return isRefresh(q) || q == d }})
+				if p2 != nil {
+					bad = append(bad, fmt.Sprintf("%s assigned at %s, %s read at %s", V.Name(), c.pos(a.Stmt), L.Name(), c.pos(p2[len(p2)-1].Ast())))
+				}
+			}
+			c.R.Check(len(bad) == 0, rule, fmt.Sprintf("minify.DataURI/length#%d is the length of the payload it is compared for", n), c.pos(as), "no assignment of the payload between the definition and a read",
+				"a length computed from the payload is read after the payload was assigned again ("+strings.Join(bad, "; ")+"): the encodings are compared by the size of bytes that are not the ones that are written, and the longer encoding can be chosen")
+		}
+	}
+	c.R.Floor(rule, "lengths computed from the payload", n, 2)
 }
